@@ -132,7 +132,7 @@ type c18Mem struct {
 type c18MemMutex struct{ c *c18Mem }
 
 func (m c18MemMutex) Lock() error   { m.c.pause(); m.c.lock.Lock(); m.c.pause(); return nil }
-func (m c18MemMutex) Unlock() error { m.c.pause(); m.c.lock.Unlock(); return nil }
+func (m c18MemMutex) Unlock() error { m.c.pause(); m.c.lock.Unlock(); m.c.pause(); return nil }
 
 // pause widens the windows between the store accesses of concurrent handlers
 func (c *c18Mem) pause() {
